@@ -1,11 +1,48 @@
 # Executed by gen_manifest.py.  One claim() per property that has an armed check;
 # everything else must be in NOT_YET with the honest reason.
-TB = "Trusted: rustc MIR construction, the mirdump driver, the rule code, library contracts (std, nom, quick-xml, bytes, byteorder, memchr, futures) and the spec tables; see DESIGN §2.2."
+TB = " Trusted: rustc MIR construction, the mirdump driver, the rule code, library contracts (std, nom, quick-xml, bytes, byteorder, memchr, futures) and the spec tables; see DESIGN §2.2."
+STRUCT = "Decides structural necessary conditions only, not the runtime behaviour as a whole: "
 
+claim("C01", "other",
+      STRUCT + "ORD-1 — every one of the ~127 references to a numeric wire primitive in dlt.rs/parse.rs uses the message byte order parameter in order-generic code, the spec-fixed order in header code, forwards to the same-width nom primitive in the NomByteOrder impls, and is selected by the matching `endianness == Big` branch at the dispatch sites; no order-dependent constant byte string is written in order-generic code.",
+      "Not decided: equality of field values through nom/byteorder/String (library semantics), the round-trip equality itself." + TB,
+      "type-resolved call/value reference classification + control-dependence on the endianness predicate (MIR dominators)", "DESIGN §4 C01")
+claim("C02", "other",
+      STRUCT + "CONST-1 — all 39+ layout constants and width discriminants evaluate to the values transcribed from the DLT PRS; ORD-1 — header fields big-endian, storage-header timestamps little-endian, payload in message order.",
+      "Not decided: verdict equivalence with a reference decoder over all byte strings." + TB,
+      "compiler-evaluated constants vs spec table + ORD-1", "DESIGN §4 C02")
+claim("C05", "other",
+      STRUCT + "CALL-S — every nom primitive reachable (resolved call graph incl. closures and fn-item values) from dlt_message / dlt_consume_msg is a streaming one; complete primitives and Incomplete-swallowing combinators are rejected (one allow-listed complete::be_u8 behind the length verdict).",
+      "Not decided: hints produced inside nom; value-dependent hard errors inside the available bytes." + TB,
+      "call-graph reachability over resolved callees", "DESIGN §4 C05")
+claim("C06", "other",
+      STRUCT + "the storage-header pattern constant is 'DLT\\x01', the finder is built from exactly that constant and searched with memmem::Finder::find (first occurrence).",
+      "Not decided: memchr's search correctness." + TB,
+      "evaluated constant + call-site argument provenance", "DESIGN §4 C06")
+claim("C07", "other",
+      STRUCT + "CALL-R — the byte source is read only through Read::read_exact on the BufReader (fragmentation and Interrupted are absorbed by std); the default capacity covers storage header + 65535.",
+      "Not decided: std BufReader/read_exact semantics." + TB,
+      "who-may-call rule over type-resolved trait method calls", "DESIGN §4 C07")
+claim("C08", "other",
+      STRUCT + "CALL-R on the pre-transform coroutine bodies — the async source is read only through AsyncReadExt::read_exact on futures' BufReader.",
+      "Not decided: interleavings of Poll::Pending (delegated to futures' ReadExact), cancel safety." + TB,
+      "who-may-call rule over coroutine MIR", "DESIGN §4 C08")
+claim("C10", "other",
+      STRUCT + "LOOP-1 — every iteration of the scan loop calls next_message_slice exactly once and collect_statistic exactly once (min = max = 1 over all header-to-latch paths), never outside the loop.",
+      "Not decided: hash-map semantics, order independence of merging." + TB,
+      "path counting over the loop's acyclic body", "DESIGN §4 C10")
 claim("C12", "proof",
       "Every natural loop reachable from gather_fibex_data is classified: driven by a finite std/quick-xml iterator whose None arm leaves, or an XML event pump whose end-of-input arm leaves the loop (LOOP-E); no recursion; no deny-listed panicking callee is reachable. Termination and refusal-not-panic are visible in code shape on every path, so a per-loop/per-site proof obligation covers every file content.",
-      "Not decided: progress and internal panics of quick-xml (trusted library), allocation failure. " + TB,
+      "Not decided: progress and internal panics of quick-xml (trusted library), allocation failure." + TB,
       "MIR natural-loop classification (LOOP-E) + call-graph deny-list", "DESIGN §4 C12")
+claim("C13", "other",
+      STRUCT + "ORD-1 (paired) — each of the 16 order-specific decoders and both read_u16 calls in construct_arguments is control dependent on the matching `endianness == Big` outcome; TypeLength/FloatWidth discriminants equal the bit widths the code divides by 8.",
+      "Not decided: numeric decoding inside nom." + TB,
+      "control-dependence (dominators) of type-resolved call sites", "DESIGN §4 C13")
+claim("C14", "other",
+      STRUCT + "CONST — every flag/code constant equals the spec bit layout; ORD-1 — the type-info word goes through T::write_u32 / T::parse_u32.",
+      "Not decided yet: the bit-level decode/encode tables (engine layer)." + TB,
+      "compiler-evaluated constants vs spec table", "DESIGN §4 C14")
 
-for _p in ["C01","C02","C03","C04","C05","C06","C07","C08","C09","C10","C11","C13","C14","C15","C16","C17","C18","C19"]:
-    NOT_YET[_p] = "check not armed yet in this build round (rules are being built in the order of DESIGN §7); no verdict is claimed until the rule runs"
+for _p in ["C03","C04","C09","C11","C15","C16","C17","C18","C19"]:
+    NOT_YET[_p] = "check not armed yet in this build round (needs the abstract-interpretation layer, DESIGN §7 steps 3-5); no verdict is claimed until the rule runs"
